@@ -32,6 +32,7 @@ pub struct R2(pub u32);
 pub struct RX(pub u32);         // never in a resource list
 pub struct RNS(pub Rc<u32>);
 pub struct ROK(pub Arc<u32>);
+pub struct RCELL(pub Cell<u32>);   // Send, not Sync
 type Reg = Registry!(A, B, C);
 type RegN = Registry!(A, NS, NY, OK);
 fn touch<T>(_t: T) {}
@@ -262,6 +263,22 @@ def gen():
     for par in (False, True):
         add("f7_sched_views_%s_ny" % ("par" if par else "seq"), "F7 schedule task (Send, not Sync payload)", sched("NY", "views", par), "reject", "schedule task with a shared view of a Cell component")
         add("f7_sched_entry_%s_ny" % ("par" if par else "seq"), "F7 schedule task (Send, not Sync payload)", sched("NY", "entry", par), "reject", "schedule task with a shared entry view of a Cell component")
+    for par in (False, True):
+        for k in "rw":
+            def sres(r, k=k, par=par):
+                task_ = "task::ParSystem" if par else "task::System"
+                return system_prog(par, "Views!(&'a A)", "Views!(%s)" % vt(k, r, "'a"), "Views!()", "u32", "OK", r) + \
+                    "pub fn f(world: &mut World<Registry!(A, OK), Resources!(R1, %s)>) { let mut s = schedule!(%s(S(1))); world.run_schedule(&mut s); }" % (r, task_)
+            nm = "f7_sched_res_%s_%s_cell" % (k, "par" if par else "seq")
+            if k == "r":
+                add(nm, "F7 schedule task (Send, not Sync resource)", sres("RCELL"), "reject", "schedule task with a shared view of a Cell resource")
+            else:
+                add(nm + "_twin", "F7 schedule task (Send, not Sync resource) twin", sres("RCELL"), "accept", "schedule task with an exclusive view of a Cell resource")
+    def runsys_res(r, par):
+        return system_prog(par, "Views!(&'a A)", "Views!(&'a %s)" % r, "Views!()", "u32", "OK", r) + \
+            "pub fn f(world: &mut World<Registry!(A, OK), Resources!(R1, %s)>) { world.%s(&mut S(1)); }" % (r, "run_par_system" if par else "run_system")
+    add("f7_run_par_system_res_cell", "F7 run_par_system (Send, not Sync resource)", runsys_res("RCELL", True), "dontcare", "ParSystem with a shared view of a Cell resource (the resource views stay on the calling thread)")
+    add("f7_run_system_res_cell_twin", "F7 run_system (Send, not Sync resource) twin", runsys_res("RCELL", False), "accept", "sequential system with a shared view of a Cell resource")
     def parsys(c):
         return system_prog(True, "Views!(&'a %s)" % c, "Views!()", "Views!()", "u32", c, "") + "pub fn f(world: &mut World<Registry!(A, %s)>) { world.run_par_system(&mut S(1)); }" % c
     thread_prog("f7_run_par_system", "F7 run_par_system", parsys, "ParSystem viewing a non-thread-safe component")
@@ -270,7 +287,15 @@ def gen():
     add("c18_new_unchecked_twin", "C18 unsafe constructor twin", "pub fn f() { let b = unsafe { brood::entities::Batch::new_unchecked((vec![A(1)], (vec![B(1)], brood::entities::Null))) }; touch(b); }", "accept", "inside unsafe")
 
 
-OK_CODES = {"E0277", "E0499", "E0502", "E0505", "E0597", "E0599", "E0271", "E0308", "E0282", "E0283", "E0284", "E0133", "E0716", "E0506", "E0503", "E0382", "E0521", "E0373", "E0275"}
+    # the columns of a batch are private: safe code cannot make them ragged after construction
+    BT = "brood::entities::Batch<(Vec<A>, (Vec<B>, brood::entities::Null))>"
+    add("c18_batch_columns_private", "C18 batch invariant", "pub fn f(mut b: %s) { b.entities.0.push(A(1)); touch(b); }" % BT, "reject", "a batch column lengthened through a public field")
+    add("c18_batch_columns_private_read", "C18 batch invariant", "pub fn f(b: %s) -> usize { b.entities.0.len() }" % BT, "dontcare", "a batch column read through a field")
+    add("c18_batch_struct_literal", "C18 batch invariant", "pub fn f() { let b = brood::entities::Batch { entities: (vec![A(1)], (vec![B(1), B(2)], brood::entities::Null)), len: 1 }; touch(b); }", "reject", "a batch built with a struct literal")
+    add("c18_batch_columns_twin", "C18 batch invariant twin", "pub fn f(b: %s, world: &mut World<Reg>) { touch(world.extend(b)); }" % BT, "accept", "a batch passed on unchanged")
+    add("c18_identifier_forged", "C18 identifier fields", "pub fn f() -> entity::Identifier { entity::Identifier { index: 0, generation: 0 } }", "dontcare", "an identifier built with a struct literal")
+
+OK_CODES = {"E0277", "E0499", "E0502", "E0505", "E0597", "E0599", "E0271", "E0308", "E0282", "E0283", "E0284", "E0133", "E0716", "E0506", "E0503", "E0382", "E0521", "E0373", "E0275", "E0616", "E0451", "E0560", "E0063", "E0639"}
 
 
 def artifacts():
